@@ -707,7 +707,7 @@ class Vector(Qube):
             if arg._derivs_:
                 arg_inv_sq = Qube.__new__(type(self))
                 arg_inv_sq.__init__(divisor**(-2), divisor_mask,
-                                    units = Units.units_power(arg._units_, -1))
+                                    units = Units.units_power(arg._units_, -2))
                 factor = self.wod.element_mul(arg_inv_sq)
 
                 for (key, arg_deriv) in arg._derivs_.items():
